@@ -78,9 +78,10 @@ def build_case(ident):
     return I, single, docs, root, plan, decoys, st, net
 
 
-def load(root, st, net, fault_at=None, fault_kind=None, cache=None, policy=0):
+def load(root, st, net, fault_at=None, fault_kind=None, cache=None, policy=0, store=None):
     import suds.client
-    store = DG.RecordingStore(st)
+    # (a caller may keep one document store for all its clients: `store` is the one an earlier load used)
+    store = store if store is not None else DG.RecordingStore(st)
     tr = DG.GraphTransport(net, fault_at, fault_kind)
     kw = {"documentStore": store, "transport": tr, "nosend": True, "cache": cache}
     if cache is not None:
@@ -303,6 +304,7 @@ def run(ctx):
     del model_reqs[:], model_metas[:]
     included_needs_includer(ctx)
     store_and_split_namespace(ctx)
+    locations_differing_in_case(ctx)
     wsdl_then_xsd_imports(ctx)
     same_name_element_and_type(ctx)
     relative_include_shapes(ctx)
@@ -372,7 +374,12 @@ def faults(ctx, ident, I, root, st, net, clean_tr, ref_fp, meta0):
                     model_metas.append((meta, sorted(order.index(u) for u in cached) if policy == 0 else [],
                                         policy))
                     # nothing incomplete cached: a later healthy load must behave like a clean first load
-                    client2, err2, store2, tr2 = load(root, st, net, None, None, suds.cache.ObjectCache(d), policy)
+                    # (the caller's document store is the caller's: a load - failed or not - leaves in it what was in it)
+                    if len(store) != len(DG.RecordingStore(st)):
+                        ctx.fail("a load changed the content of the document store it was given", meta, len(store),
+                                 len(DG.RecordingStore(st)))
+                    client2, err2, store2, tr2 = load(root, st, net, None, None, suds.cache.ObjectCache(d), policy,
+                                                      store=store if k % 2 else None)
                     if err2 is not None:
                         ctx.fail("a healthy retry after a failed load fails", meta, err2, "the clean client")
                         continue
@@ -517,6 +524,58 @@ def store_and_split_namespace(ctx):
                     ctx.fail("documents held by the document store were asked of the transport", meta, tr.opened, [])
                 if where == "transport" and sorted(tr.opened) != sorted([root_url, part_url]):
                     ctx.fail("the documents were not fetched exactly once each", meta, tr.opened, [root_url, part_url])
+
+
+def locations_differing_in_case(ctx):
+    """Two documents whose locations differ only in letter case (paths are case-sensitive) are two documents: each is
+    fetched, cached and served as itself - cold, and again from the warm document cache."""
+    import suds.cache
+    XS = "http://www.w3.org/2001/XMLSchema"
+
+    def xsd(ns, tname):
+        return ('<xsd:schema xmlns:xsd="%s" targetNamespace="%s" elementFormDefault="qualified"><xsd:complexType name="%s">'
+                '<xsd:sequence><xsd:element name="m%s" type="xsd:int"/></xsd:sequence></xsd:complexType></xsd:schema>'
+                % (XS, ns, tname, tname)).encode()
+    for u1, u2 in (("http://docs.invalid/s/Types.xsd", "http://docs.invalid/s/types.xsd"),
+                   ("http://docs.invalid/S/t.xsd", "http://docs.invalid/s/t.xsd"),
+                   ("http://docs.invalid/t.xsd?V=1", "http://docs.invalid/t.xsd?v=1")):
+        root_url = "http://docs.invalid/root.wsdl"
+        w = ('<?xml version="1.0"?><wsdl:definitions targetNamespace="urn:w" xmlns:wsdl="%s" xmlns:w="urn:w" '
+             'xmlns:t="urn:t" xmlns:soap="%s"><wsdl:types><xsd:schema xmlns:xsd="%s" targetNamespace="urn:t" '
+             'elementFormDefault="qualified"><xsd:import namespace="urn:one" schemaLocation="%s"/><xsd:import '
+             'namespace="urn:two" schemaLocation="%s"/><xsd:element name="f" type="xsd:string"/></xsd:schema></wsdl:types>'
+             '<wsdl:message name="fIn"><wsdl:part name="p" element="t:f"/></wsdl:message><wsdl:portType name="PT">'
+             '<wsdl:operation name="f"><wsdl:input message="w:fIn"/></wsdl:operation></wsdl:portType>'
+             '<wsdl:binding name="B" type="w:PT"><soap:binding style="document" '
+             'transport="http://schemas.xmlsoap.org/soap/http"/><wsdl:operation name="f"><soap:operation '
+             'soapAction="f"/><wsdl:input><soap:body use="literal"/></wsdl:input></wsdl:operation></wsdl:binding>'
+             '<wsdl:service name="S"><wsdl:port name="P" binding="w:B"><soap:address location="http://x.invalid/"/>'
+             '</wsdl:port></wsdl:service></wsdl:definitions>' % (IF.WSDLNS, IF.SOAPNS, XS, u1.replace("&", "&amp;"),
+                                                                  u2.replace("&", "&amp;"))).encode()
+        net = {root_url: w, u1: xsd("urn:one", "One"), u2: xsd("urn:two", "Two")}
+        d = tempfile.mkdtemp(prefix="verif-c12-")
+        try:
+            for phase in ("cold", "warm"):
+                meta = {"stream": "locations-differing-in-case", "first": u1, "second": u2, "phase": phase}
+                ctx.case(common.canon(meta), True)
+                client, err, store, tr = load(root_url, {}, net, None, None, suds.cache.DocumentCache(d), 0)
+                if err is not None:
+                    ctx.fail("two documents at locations differing in case do not load", meta, err, "a client")
+                    break
+                try:
+                    got = [[k for k, _v in client.factory.create("{urn:one}One")],
+                           [k for k, _v in client.factory.create("{urn:two}Two")]]
+                except Exception as e:
+                    got = "%s: %s" % (type(e).__name__, e)
+                if got != [["mOne"], ["mTwo"]]:
+                    ctx.fail("a document was served as another one whose location differs in case", meta, got,
+                             [["mOne"], ["mTwo"]])
+                if phase == "cold" and sorted(tr.opened) != sorted(net):
+                    ctx.fail("documents at locations differing in case are not each fetched", meta, sorted(tr.opened), sorted(net))
+                if phase == "warm" and tr.opened:
+                    ctx.fail("a warm cache still goes to the transport", meta, tr.opened, [])
+        finally:
+            shutil.rmtree(d, ignore_errors=True)
 
 
 def same_name_element_and_type(ctx):
